@@ -340,7 +340,7 @@ class SObj(SV):
         raise AttributeError(name)
 
     def __setattr__(self, name, value):
-        self.fields[name] = value
+        self.fields[name] = lift(value)
 
     def __eq__(self, o):
         return self is o
